@@ -38,6 +38,8 @@ pub enum Q {
 pub enum Term {
     Ada(Q),
     Tok(usize, Q),
+    /// AnyAsset(<policy of token i>, <Bytes parameter>, q): the asset name arrives as an argument
+    AnyTok(usize, String, Q),
     Fees,
     MinUtxo(String),
     Input(String),
@@ -74,6 +76,8 @@ pub struct OutputSpec {
     pub name: Option<String>,
     pub optional: bool,
     pub to: usize,
+    /// pay to the script address of a declared policy instead of a party
+    pub to_policy: Option<usize>,
     pub amount: Amount,
     pub datum: Option<DatumSpec>,
 }
@@ -140,6 +144,8 @@ pub struct TxSpec {
 #[derive(Clone, Debug, Default)]
 pub struct Program {
     pub parties: Vec<Party>,
+    /// `policy <name> = 0x<hash>;` definitions
+    pub policies: Vec<(String, Vec<u8>)>,
     pub tokens: Vec<Token>,
     pub has_rec: bool,
     pub env: Vec<(String, Ty)>,
@@ -177,6 +183,7 @@ impl Program {
         match t {
             Term::Ada(q) => format!("Ada({})", pq(q)),
             Term::Tok(i, q) => format!("{}({})", self.tokens[*i].ident, pq(q)),
+            Term::AnyTok(i, name, q) => format!("AnyAsset(0x{}, {}, {})", hex::encode(&self.tokens[*i].policy), name, pq(q)),
             Term::Fees => "fees".into(),
             Term::MinUtxo(o) => format!("min_utxo({})", o),
             Term::Input(n) => n.clone(),
@@ -221,6 +228,9 @@ impl Program {
         }
         for p in &self.parties {
             s.push_str(&format!("party {};\n", p.name));
+        }
+        for (n, h) in &self.policies {
+            s.push_str(&format!("policy {} = 0x{};\n", n, hex::encode(h)));
         }
         s.push('\n');
         for t in &self.tokens {
@@ -300,7 +310,10 @@ impl Program {
                 "    output{}{} {{\n        to: {},\n        amount: {},\n",
                 if o.optional { " ?" } else { "" },
                 o.name.as_ref().map(|n| format!(" {}", n)).unwrap_or_default(),
-                self.parties[o.to].name,
+                match o.to_policy {
+                    Some(k) => self.policies[k].0.clone(),
+                    None => self.parties[o.to].name.clone(),
+                },
                 self.pamount(&o.amount)
             ));
             match &o.datum {
@@ -467,8 +480,15 @@ pub fn gen_program(t: &mut Tape, cfg: &GenCfg) -> Program {
         p.tokens.push(Token {
             ident: format!("Tok{}", i),
             policy: std::iter::repeat(0x11 * (pol_id as u8 + 1)).take(28).collect(),
-            name: TOKEN_NAMES[i].as_bytes().to_vec(),
+            // the empty asset name is legal (and is where "no name" and "empty name" can be confused)
+            name: if t.chance(1, 6) { vec![] } else { TOKEN_NAMES[i].as_bytes().to_vec() },
         });
+    }
+    if cfg.profile == Profile::Rich && t.chance(1, 3) {
+        let n = 1 + t.index(2);
+        for i in 0..n {
+            p.policies.push((format!("Pol{}", i), std::iter::repeat(0x61 + i as u8 * 7).take(28).collect()));
+        }
     }
     let ntx = 1 + t.index(cfg.max_txs.max(1));
     for k in 0..ntx {
@@ -565,7 +585,9 @@ fn gen_tx(t: &mut Tape, cfg: &GenCfg, p: &mut Program, k: usize) -> TxSpec {
             p.has_rec = true;
         }
         tx.inputs.push(InputSpec {
-            name: format!("in{}", i),
+            // blocks are resolved in name order, and the collateral query is always called
+            // "collateral": names sort before and after it
+            name: format!("{}{}", *t.pick(&["in", "a", "src", "zed", "b"]), i),
             many: t.chance(1, 3),
             from: if has_from { Some(from) } else { None },
             ref_param,
@@ -655,6 +677,11 @@ fn gen_tx(t: &mut Tape, cfg: &GenCfg, p: &mut Program, k: usize) -> TxSpec {
             for k in 0..n {
                 let mut script = hex::decode("5101010023259800a518a4d136564004ae69").unwrap();
                 script[5] = script[5].wrapping_add(k as u8 * 37);
+                if t.chance(1, 10) {
+                    // a script of realistic size (kilobytes), not a toy one
+                    let len = *t.pick(&[5000usize, 4096, 4097, 16_000]);
+                    script.resize(len, 0x42 + k as u8);
+                }
                 tx.directives.push(Directive::PlutusWitness {
                     version: if t.chance(1, 6) { *t.pick(&[3u8, 2, 1]) } else { version },
                     script,
@@ -699,16 +726,24 @@ fn gen_tx(t: &mut Tape, cfg: &GenCfg, p: &mut Program, k: usize) -> TxSpec {
         }
         if !zero_amount && !p.tokens.is_empty() && t.chance(1, 3) {
             let tok = t.index(p.tokens.len());
-            terms.push((false, Term::Tok(tok, small_q_tok(t, &mut params))));
+            if cfg.profile != Profile::Selection && t.chance(1, 4) {
+                let name = format!("nm{}x{}", tok, params.len());
+                params.push((name.clone(), Ty::Bytes));
+                terms.push((false, Term::AnyTok(tok, name, small_q_tok(t, &mut params))));
+            } else {
+                terms.push((false, Term::Tok(tok, small_q_tok(t, &mut params))));
+            }
         }
         let datum = gen_datum(t, cfg, p, &tx, &mut params);
         for x in &terms {
             spent.push((true, x.1.clone()));
         }
+        let to_policy = if !p.policies.is_empty() && t.chance(1, 2) { Some(t.index(p.policies.len())) } else { None };
         tx.outputs.push(OutputSpec {
             name: if use_min_utxo || t.chance(1, 3) { Some(out_names[i].clone()) } else { None },
             optional: (zero_amount || t.chance(1, if cfg.optional_bias { 2 } else { 8 })) && datum.is_none(),
             to: t.index(np),
+            to_policy,
             amount: Amount(terms),
             datum,
         });
@@ -739,6 +774,7 @@ fn gen_tx(t: &mut Tape, cfg: &GenCfg, p: &mut Program, k: usize) -> TxSpec {
         name: if use_min_utxo { Some(out_names[nout - 1].clone()) } else { None },
         optional: false,
         to: common_from,
+        to_policy: None,
         amount: Amount(change),
         datum,
     });
@@ -1023,6 +1059,16 @@ pub fn gen_args(t: &mut Tape, p: &Program, tx: &TxSpec, chain: &SimChain, dist: 
                             *t.pick(&[1000i128, 0, 50, 1 << 20])
                         } else if n.starts_with('n') || n.starts_with('k') {
                             *t.pick(&[1i128, 2, 3, 5, 0])
+                        } else if n.starts_with('q') && t.chance(1, 8) {
+                            // a threshold that needs most of what the best-funded party holds: only a
+                            // large set of UTxOs covers it
+                            let mut best: i128 = 0;
+                            for party in &p.parties {
+                                let tot: i128 = chain.utxos.values().filter(|u| u.address == party.addr).map(|u| u.value.get(&None).copied().unwrap_or(0)).sum();
+                                best = best.max(tot);
+                            }
+                            let k = 3 + t.draw(6) as i128;
+                            (best / 8 * k - t.draw(3) as i128 * 100_000).max(1)
                         } else {
                             *t.pick(&[2_000_000i128, 1_000_000, 0, 1, 3_000_000, 5_000_000, 1_500_000, 10_000_000])
                         }
@@ -1038,10 +1084,25 @@ pub fn gen_args(t: &mut Tape, p: &Program, tx: &TxSpec, chain: &SimChain, dist: 
                 shown.insert(key.clone(), format!("{}", v));
                 args.insert(key, ArgValue::Int(v));
             }
+            Ty::Bytes if n.starts_with("nm") => {
+                // an asset name: usually the declared name of that token, sometimes empty / other
+                let tok: usize = n[2..].split('x').next().and_then(|x| x.parse().ok()).unwrap_or(0);
+                let b = match t.weighted(&[5, 1, 1, 1]) {
+                    0 => p.tokens.get(tok).map(|x| x.name.clone()).unwrap_or_default(),
+                    1 => vec![],
+                    2 => b"OTHER".to_vec(),
+                    _ => {
+                        let len = *t.pick(&[32usize, 1, 33, 64]);
+                        t.bytes(len)
+                    }
+                };
+                shown.insert(key.clone(), format!("0x{}", hex::encode(&b)));
+                args.insert(key, ArgValue::Bytes(b));
+            }
             Ty::Bytes => {
                 let len = match dist {
                     ArgDist::Small => *t.pick(&[4usize, 0, 28, 32]),
-                    ArgDist::Boundary => *t.pick(&[4usize, 0, 1, 27, 28, 29, 32, 64, 65]),
+                    ArgDist::Boundary => *t.pick(&[4usize, 0, 1, 27, 28, 29, 32, 64, 65, 4097]),
                 };
                 let b = t.bytes(len);
                 shown.insert(key.clone(), format!("0x{}", hex::encode(&b)));
